@@ -118,7 +118,7 @@ impl Prop for C18 {
         "exhaustive: (read, write, connect) in {absent, 0, 1 ns, 1 ms, u64::MAX s}^3 x retries in {0, 1, 2, usize::MAX-1, usize::MAX} x construction path {new, clap flags parsed by a \
          harness Parser that flattens TimeoutSettings, serde JSON} (+ Default). Oracle: a zero duration anywhere => construction fails (InvalidInput / a parse error), otherwise it \
          succeeds and the getters return what was given (flags: whole seconds, absent = the 4 s default). Every accepted value is then used (a) in real-socket queries (Quake 3 over \
-         UDP, Minecraft legacy over TCP, Valve over UDP) against loopback servers that answer at once, with retries capped at 1 so that nanosecond read timeouts cannot loop forever, \
+         UDP, Minecraft legacy over TCP, Valve over UDP, Eco over HTTP) against loopback servers that answer at once, with retries capped at 1 so that nanosecond read timeouts cannot loop forever, \
          and (b) with its full retry count in scripted queries of all 18 retrying entry points against a server that is silent twice and then answers: no panic (overflow checks on), \
          and with r >= 2 the scripted query must succeed. Random cases add non-numeric / negative / overflowing flag values. non-trivial = an extreme value is present; distinct = \
          digest of the case"
@@ -251,6 +251,24 @@ impl Prop for C18 {
                         o.fail(format!("C18|real-socket query with accepted settings|fails although the server answers at once|{k:?}"), json!({"entry": entry.sig_name(), "settings": format!("{capped:?}")}));
                         return o;
                     }
+                }
+            }
+        }
+        // (c) HTTP (Eco through ureq): the same settings against a loopback HTTP server that answers at once
+        if let Some(server) = crate::models::eco::thread_server() {
+            let st = crate::runner::sample_one(&crate::models::eco::eco_state().boxed(), "C18-eco", 0);
+            server.set_json(&st.body());
+            let port = server.port;
+            let run = run_plain(|| gamedig::games::eco::query_with_timeout(&lo, Some(port), &capped).map(|_| ()));
+            if let Ended::Panic(p) = &run.ended {
+                o.fail(format!("C18|HTTP query with accepted settings|panic|{}|{}", p.site(), p.class()), json!({"entry": "eco::query", "settings": format!("{capped:?}"), "panic": p}));
+                return o;
+            }
+            let sane = [case.read, case.write, case.connect].iter().all(|d| matches!(d, Dur::Absent | Dur::Max)) || case.path == Path::Clap;
+            if sane {
+                if let Ended::Err(k) = &run.ended {
+                    o.fail(format!("C18|HTTP query with accepted settings|fails although the server answers at once|{k:?}"), json!({"entry": "eco::query", "settings": format!("{capped:?}")}));
+                    return o;
                 }
             }
         }
